@@ -73,9 +73,9 @@ need (the full self-test was re-run after each correction) — with {len([r for 
 invariant the checker does not derive). The three independent cumulative
 combinations of the first 80 refactorings (46 + 20 + 6 patches applied together) are
 silent as well. All are kept under `/verif/refactor/<id>/` and replayed by the thorough
-tier: the properties listed must stay silent. Two of the maintenance-edit authors remarked
-on defects of the unchanged tree while testing their edits; both were confirmed, repaired
-and turned into rules (F34, F35, §2).
+tier: the properties listed must stay silent. One maintenance-edit author (C07) remarked
+on a defect of the unchanged tree while stress-testing his edits; it was confirmed, repaired
+and turned into a rule (F35, §2).
 
 | refactoring | written for | properties that initially alarmed | what it does |
 |---|---|---|---|
